@@ -128,7 +128,8 @@ ImplAnchor2(pos, sb) ==
 (* Off-lattice values arrive as the integer -777777 (never an expected one)*)
 (***************************************************************************)
 Clauses == {"NoRaise", "BoundsExact", "ShapelyKind", "ShapelyCoords", "FeaturesPresent", "FeatureValues",
-            "AnchorExact", "CentroidInside", "SurfaceInside"}
+            "AnchorExact", "CentroidInside", "SurfaceInside",
+            "Drift/Shape", "Drift/Features"}   \* not verdicts: the code still is what Impl transcribes (reported as MODEL-DRIFT)
 Inside(p, b) == LIn(p[1], b[1], b[3]) /\ LIn(p[2], b[2] * HZ, b[4] * HZ)
 Holds(cl, o) ==
     LET g == o.in.g  b == B(g)  R == o.out.runs IN
@@ -142,6 +143,8 @@ Holds(cl, o) ==
         [] cl = "FeaturesPresent" -> \A n \in Required(g) : \E i \in DOMAIN r.feat : r.feat[i].name = n
         [] cl = "FeatureValues" -> \A i \in DOMAIN r.feat : r.feat[i].name \in FeatNames => r.feat[i].v = FeatOf(g, b)[r.feat[i].name]
         [] cl = "AnchorExact"   -> Len(r.anchors) = Len(Positions) /\ \A i \in DOMAIN Positions : r.anchors[i] = AnchorOf(b, Positions[i])
+        [] cl = "Drift/Shape"    -> r.shape = ImplShape(g)                 \* same shapely kind, same vertex sequences incl. closure
+        [] cl = "Drift/Features" -> [i \in DOMAIN r.feat |-> <<r.feat[i].name, r.feat[i].v>>] = ImplFeat(g, b)
         [] cl = "CentroidInside" -> Inside(r.centroid, b)
         [] cl = "SurfaceInside"  -> Inside(r.surface, b)
 =============================================================================
